@@ -67,6 +67,51 @@ def c02_unlock_on_polka : String := "(cs.LockedBlock != nil) && (cs.LockedRound 
 /-- has consensus/state.go State.signVote -/
 def c02_vote_carries_cs_round : Bool := true
 
+/-- cond consensus/state.go State.handleCompleteProposal -/
+def c03_complete_proposal_in_commit : String := "cs.Step == cstypes.RoundStepCommit"
+
+/-- cond consensus/state.go State.defaultDecideProposal -/
+def c03_decide_valid_block : String := "cs.ValidBlock != nil"
+
+/-- has config/config.go DefaultConsensusConfig -/
+def c03_default_precommit_delta : Bool := true
+
+/-- has config/config.go DefaultConsensusConfig -/
+def c03_default_prevote_delta : Bool := true
+
+/-- has config/config.go DefaultConsensusConfig -/
+def c03_default_propose_delta : Bool := true
+
+/-- cond consensus/state.go State.enterCommit -/
+def c03_enterCommit_guard : String := "cs.Height != height || cstypes.RoundStepCommit <= cs.Step"
+
+/-- cond consensus/state.go State.enterNewRound -/
+def c03_enterNewRound_guard : String := "cs.Height != height || round < cs.Round || (cs.Round == round && cs.Step != cstypes.RoundStepNewHeight)"
+
+/-- has consensus/state.go State.enterNewRound -/
+def c03_enterNewRound_single_increments : Bool := true
+
+/-- has config/config.go ConsensusConfig.Precommit -/
+def c03_precommit_timeout_formula : Bool := true
+
+/-- has config/config.go ConsensusConfig.Prevote -/
+def c03_prevote_timeout_formula : Bool := true
+
+/-- has consensus/state.go State.defaultDecideProposal -/
+def c03_proposal_carries_valid_round : Bool := true
+
+/-- has config/config.go ConsensusConfig.Propose -/
+def c03_propose_timeout_formula : Bool := true
+
+/-- has consensus/state.go State.addVote -/
+def c03_round_skip_precommits : Bool := true
+
+/-- has consensus/state.go State.addVote -/
+def c03_round_skip_prevotes : Bool := true
+
+/-- cond consensus/ticker.go timeoutTicker.timeoutRoutine -/
+def c03_ticker_replace_rule : String := "ti.Step > 0 && newti.Step <= ti.Step"
+
 /-- order state/execution.go BlockExecutor.ApplyBlock -/
 def c05_applyBlock_order : List String := ["validateBlock", "execBlockOnProxyApp", "SaveABCIResponses", "updateState", "Commit", "Save"]
 
@@ -295,17 +340,35 @@ def c14_verifyApp_height_guard : String := "uint64(resp.LastBlockHeight) != snap
 /-- cond statesync/syncer.go syncer.verifyApp -/
 def c14_verifyApp_version_guard : String := "resp.AppVersion != appVersion"
 
+/-- has consensus/replay.go State.catchupReplay -/
+def c15_catchup_corruption_case : Bool := true
+
+/-- has consensus/replay.go State.catchupReplay -/
+def c15_catchup_wraps_error : Bool := false
+
 /-- cond consensus/wal.go WALDecoder.Decode -/
 def c15_decode_clean_eof : String := "errors.Is(err, io.EOF) && nr == 0"
 
+/-- const libs/autofile/group.go defaultHeadSizeLimit -/
+def c15_defaultHeadSizeLimit : Int := 10485760
+
+/-- const libs/autofile/group.go defaultTotalSizeLimit -/
+def c15_defaultTotalSizeLimit : Int := 1073741824
+
 /-- has libs/autofile/group.go OpenGroup -/
 def c15_headBuf_40k : Bool := true
+
+/-- has libs/autofile/group.go Group.readGroupInfo -/
+def c15_index_pattern : Bool := true
 
 /-- const libs/autofile/group.go maxFilesToRemove -/
 def c15_maxFilesToRemove : Int := 4
 
 /-- const consensus/reactor.go maxMsgSize -/
 def c15_maxMsgSize : Int := 1048576
+
+/-- has consensus/state.go State.OnStart -/
+def c15_onstart_corruption_case : Bool := true
 
 /-- order consensus/state.go State.OnStart -/
 def c15_onstart_repair_order : List String := ["loadWalFile", "catchupReplay", "Stop", "CopyFile", "repairWalFile"]
@@ -604,6 +667,6 @@ def types_MaxBlockPartsCount : Int := 1601
 /-- const types/vote_set.go MaxVotesCount -/
 def types_MaxVotesCount : Int := 10000
 
-def factCount : Nat := 201
+def factCount : Nat := 222
 
 end Tmv.Facts
